@@ -7,6 +7,7 @@ OV1  overflow before widening: a product of two or more non-constant 32-bit inte
 """
 import json
 import os
+import re
 
 from ..core import RuleResult
 from ..build import VERIF
@@ -856,3 +857,101 @@ def rule_POS1(ctx, files=None):
                          'the length of the substring starting at a non-zero position at %s' % (l_.get('name'), f.q, f.loc(i)))
     res.analysed['substring_calls'] = ncalls
     return res, ncalls
+
+
+# ------------------------------------------------------------------ DZ1: division by a member that an accepted argument makes zero
+# members that vanish together with the flattening (a sphere, f = 0, is accepted by every class but TransverseMercatorExact)
+DZ1_FLATTENING = {'_f', '_e2', '_e', '_e1', '_ep2', '_es', '_e12', '_e2a', '_ep'}
+# other members that a documented, accepted argument makes zero: class -> members (with the argument)
+DZ1_CLASS = {
+    'LambertConformalConic': {'_n': 'the Mercator limit, standard parallels +-phi'},
+    'AlbersEqualArea': {'_n0': 'the cylindrical limit, standard parallels +-phi'},
+    'EllipticFunction': {'_kp2': 'k2 = 1', '_k2': 'k2 = 0', '_alpha2': 'alpha2 = 0', '_alphap2': 'alpha2 = 1'},
+}
+
+
+def _dz1_members(f, nid, names, out):
+    n = f.nodes[f.strip_casts(nid)]
+    if n['k'] == 'ParenExpr' and n['ch']:
+        return _dz1_members(f, n['ch'][0], names, out)
+    if n['k'] == 'MemberExpr' and n.get('thisbase') and n.get('m') in names:
+        out.add(n['m'])
+    elif n['k'] == 'BinaryOperator' and n.get('op') == '*':
+        _dz1_members(f, n['ch'][0], names, out)
+        _dz1_members(f, n['ch'][1], names, out)
+
+
+def _dz1_positive_only(ctx, cls):
+    """the class's constructors reject f <= 0 (TransverseMercatorExact): its flattening members cannot vanish."""
+    from ..flow import Flow
+    for g in ctx.lib_fns():
+        if not (g.is_ctor and g.cls == cls and g.cfg):
+            continue
+        fl = None
+        for i, n in g.all_nodes():
+            if n['k'] != 'CXXThrowExpr':
+                continue
+            fl = fl or Flow(g)
+            alts = fl.facts_at(i)
+            if alts and all(any((a == '(0<this._f)' and not pol) or (a == '(this._f<=0)' and pol) for a, pol in alt)
+                            for alt in alts):
+                return True
+    return False
+
+
+def rule_DZ1(ctx, files=None):
+    from ..flow import Flow
+    res = RuleResult('DZ1', 'no division by a member that an accepted argument makes zero: a quotient whose divisor is (a product '
+                            'containing) a member that vanishes for the sphere (_f, _e2, _e, ...) or for a documented limiting '
+                            'case (_n of LambertConformalConic, _n0 of AlbersEqualArea, _kp2 of EllipticFunction, ...) is '
+                            'evaluated only on paths that test that member (or, for the flattening family, any member of the '
+                            'family) against a constant')
+    nsite = 0
+    posonly = {}
+    seen = set()
+    for f in sorted(ctx.lib_fns(), key=lambda x: (x.file, x.line)):
+        if not _in(f, files) or f.d.get('body', -1) < 0 or not f.cfg or not f.cls:
+            continue
+        cname = f.cls.split('::')[-1]
+        names = set(DZ1_FLATTENING) | set(DZ1_CLASS.get(cname, {}))
+        fl = None
+        for i, n in f.all_nodes():
+            if n['k'] != 'BinaryOperator' or n.get('op') != '/' or f.loc(i) + ':%d' % n.get('c', 0) in seen:
+                continue
+            ms = set()
+            _dz1_members(f, n['ch'][1], names, ms)
+            if not ms:
+                continue
+            if ms & DZ1_FLATTENING:
+                if f.cls not in posonly:
+                    posonly[f.cls] = _dz1_positive_only(ctx, f.cls)
+                if posonly[f.cls]:
+                    ms -= DZ1_FLATTENING
+                    if not ms:
+                        continue
+            seen.add(f.loc(i) + ':%d' % n.get('c', 0))
+            fl = fl or Flow(f)
+            alts = fl.facts_at(i)
+            if alts is None:
+                continue
+            nsite += 1
+            bad = None
+            for m in sorted(ms):
+                family = DZ1_FLATTENING if m in DZ1_FLATTENING else {m}
+                keys = ['this.%s' % x for x in family]
+
+                def tests(atom):
+                    # a comparison between members / constants only (no local variable, no equality fact)
+                    return not atom.startswith('eq:') and 'v:' not in atom and \
+                        any(re.search(re.escape(k_) + r'(?![A-Za-z0-9_])', atom) for k_ in keys)
+                if not all(any(tests(a) for a, pol in alt) for alt in alts):
+                    bad = m
+                    break
+            res.ob(bad is None, {'fn': f.q, 'at': f.loc(i), 'divisor_members': sorted(ms)})
+            if bad is not None:
+                why = 'the sphere, f = 0' if bad in DZ1_FLATTENING else DZ1_CLASS[cname][bad]
+                res.fail(f.q, '/%s' % bad, f.loc(i),
+                         'the quotient %s divides by %s, which is zero for an accepted argument (%s), on a path that never '
+                         'tests it: x/0 or 0/0' % (f.src_text(i)[:60].replace('\n', ' '), bad, why))
+    res.analysed.update({'quotients_by_vanishing_members': nsite})
+    return res, nsite
